@@ -55,9 +55,14 @@ def run_inline(files, flags=(), cwd=None, pyproject=None):
     args = ["--inline-snapshot=" + ",".join(flags)] if flags else []
     out = {"files": dict(files), "changed": {}, "reported": None, "raised": None, "error": None}
     try:
-        ex = Example(dict(files))
+        fs = dict(files)
+        if pyproject is not None and "pyproject.toml" not in fs:
+            # (black's options are looked up from the test file upwards: the project file sits next to the generated module)
+            fs["pyproject.toml"] = pyproject
+        ex = Example(fs)
         res = ex.run_inline(args, reported_categories=rc, changed_files=cf, raises=ra)
         out["files"] = {k: v for k, v in res.files.items() if k in files or k.endswith(".py")}
+        out["files"].pop("pyproject.toml", None) if "pyproject.toml" not in files else None
         out["changed"] = cf.get({})
         out["reported"] = rc.get(None)
         out["raised"] = ra.get(None)
